@@ -3,6 +3,9 @@
 import json, os
 HERE = os.path.dirname(os.path.abspath(__file__))
 CLAIMED = {
+ 'C07': ('other', 'Decides the inductive ingredients of C07 on the interpreted Probe/Train and Query cells: "for us" filter, de-duplication key = (Ethernet source, real source), exact field mapping frame->node->wire descriptor, QueryResp sequence number and destination rule, truncation (more bit set, unsent remainder kept, count reduced by what was reported), release after a complete report, count bookkeeping, capacity >= 300. The history-level multiset equality follows from these by induction and is not itself enumerated; the heap-shape invariant count = list length is assumed, not proved.',
+         'clang AST, lltdsa engine with a summary (weak) list node; invariant count = list length assumed for the partial-release loop',
+         'abstract interpretation with summary list node + inductive loop summaries; origin analysis', '4 (C07)'),
  'C08': ('proof', 'sendLargeTlvResponse interpreted with size in [0,32767], offset in [0,65535], MTU in [576,9216] symbolic; every path is split along the oracle case boundaries and length, copy (source data+offset, count), length field and more flag are decided by linear entailment; the QueryLargeTlv cells are interpreted for sequence-0 handling, response sequence number, type dispatch and the (data,size,offset) handed over. Reassembly follows by induction on the offset.',
          'clang AST, lltdsa engine (Fourier-Motzkin entailment), port contract; platform data correctness and sizes >= 32768 out of scope',
          'abstract interpretation to a piecewise-linear case table; linear entailment against the oracle', '4 (C08)'),
